@@ -154,6 +154,18 @@ def work_convert(x):
     return ('done', x)
 
 
+def work_swallow(x):
+    """Swallows whatever interrupts it -- including the SystemExit of a
+    termination signal -- and returns normally."""
+    _mark('work_swallow', x)
+    try:
+        _pt(1)
+        _pt(2)
+    except BaseException:
+        pass
+    return ('swallowed', x)
+
+
 class CallbackError(Exception):
     """Raised by a result callback and listed in callbacks_propagate."""
 
